@@ -15,6 +15,7 @@ from . import dsl
 from .engine import Engine, Obligation, cfg_label, NATIVE_PY
 from .interp import VERIF_ROOT, REPO_ROOT
 from .ctx import STATS
+from .dsl import Contract
 from .values import Unsupported
 
 EXTRACTION_DROPS = [
@@ -275,7 +276,7 @@ def run_items(prop, tier, seed, items, expected, verbose=False,
     # failing native input.
     groups = {}
     for (c, cfg, specs, lb, text, asg, r) in eng.native_clause_failures:
-        nm = '%s:%s%s:%s' % (c.prop, c.name, cfg_label(cfg), lb)
+        nm = '%s:%s%s%s:%s' % (c.prop, '' if isinstance(c, Contract) else 'lemma:', c.name, cfg_label(cfg), lb)
         groups.setdefault(nm, []).append((c, cfg, specs, lb, text, asg, r))
     for nm, fails in groups.items():
         (c, cfg, specs, lb, text, asg, r) = fails[0]
@@ -310,6 +311,12 @@ def run_items(prop, tier, seed, items, expected, verbose=False,
                         robust.append(f)
             except Exception as e:
                 eng.errors.append('native re-check %s: %s' % (nm, e))
+            if robust:
+                try:
+                    robust = [f for f in robust[:8]
+                              if not ill_conditioned(eng, f, seed)]
+                except Exception as e:
+                    eng.errors.append('conditioning test %s: %s' % (nm, e))
             if not robust:
                 eng.float_noise.append({'obligation': nm, 'failed': len(fails),
                                         'valid_samples': valid, 'input': asg})
@@ -329,6 +336,23 @@ def run_items(prop, tier, seed, items, expected, verbose=False,
             'clause': text, 'input': asg, 'native': r, 'cfg': cfg,
             'found_by': 'run-time contract check on cross-check samples'})
         ob.contract = None
+    # Contracts that left the modelled subset (status `unreach`): when the
+    # bounded stand-in ran the same clauses natively on enough inputs of the
+    # precondition domain and none failed, the contract is reported as
+    # BOUNDED-ONLY (labelled, never counted as proved) instead of undecided.
+    viol_names = [o.name for o in eng.obligations if o.status == 'violation']
+    for ob in eng.obligations:
+        if ob.status != 'unreach' or not ob.name.endswith(':reach'):
+            continue
+        base = ob.name[:-len(':reach')]
+        key = base[len(ob.prop) + 1:]
+        valid = eng.native_valid.get(key, 0)
+        # lemma obligations carry a 'lemma:' marker in their names
+        bases = (base + ':', '%s:lemma:%s:' % (ob.prop, key))
+        if valid >= 20 and not any(v.startswith(bases) for v in viol_names):
+            ob.status = 'bounded-pass'
+            ob.detail = ('%s; bounded stand-in: the clauses hold on %d native samples of the precondition domain '
+                         '(random, domain corners, solver-completed); NOT proved' % (ob.detail, valid))
     # triage of refuted obligations
     confirmed = 0
     for ob in eng.obligations:
@@ -355,6 +379,77 @@ def run_items(prop, tier, seed, items, expected, verbose=False,
             'files': dict(eng.interp.files_read) if eng.interp else {},
             'stats': {k: dict(v) for k, v in STATS.by_backend.items()},
             'solver_s': STATS.solver_s}
+
+
+def ill_conditioned(eng, f, seed):
+    """Stand-in only.  True iff the failing comparison of clause f at its
+    input is explained by floating-point rounding.  Two measurements on the
+    real code, both by re-running it at perturbed inputs:
+    (A) relative perturbations of 1e-13 .. 1e-12 of the real-valued inputs
+        flip the verdict, or perturbations of up to 1e-7 move the compared
+        values by at least half of the amount by which the two sides differ
+        (a deviation of relative size r at a point of condition number below
+        5e6 * r therefore stays reported);
+    (B) the absolute sensitivity S = |d value / d(relative input change)|,
+        measured with perturbations of 1e-7, is so large that rounding of
+        the inputs alone (a few ulp, 4e-15 relative) moves the value by
+        more than the two sides differ (cancellation of huge terms).
+    A wrong result at a well-conditioned point passes neither test and stays
+    reported."""
+    (c, cfg, specs, lb, text, asg, r) = f
+    if lb == 'no-unlisted-exception':
+        return False
+    rng = random.Random(seed + 99)
+    reals = [k for k, v in asg.items() if isinstance(v, float)]
+    if not reals:
+        return False
+    asgs = [asg]
+    mags = [1e-13] * 8 + [1e-12] * 8 + [1e-7] * 6
+    for mag in mags:
+        a = dict(asg)
+        for k in reals:
+            a[k] = a[k] * (1.0 + rng.uniform(-mag, mag))
+        asgs.append(a)
+    jobs = []
+    for a in asgs:
+        j = eng.job_for(c, specs, a, [text])
+        j['rtol'] = 1e-4
+        j['trace_cmp'] = True
+        jobs.append(j)
+    res = eng.native(jobs)
+    small = [rr for rr, m in zip(res[1:], mags) if m < 1e-9]
+    large = [rr for rr, m in zip(res[1:], mags) if m >= 1e-9]
+    if any(rr.get('outcome') == 'return' and rr.get('clauses') == [True]
+           for rr in small):
+        return True         # the verdict itself flips under the perturbation
+    base = (res[0].get('cmp') or [[]])[0]
+    bad = [i for i, t in enumerate(base) if not t[2]]
+    if not bad:
+        return False
+    for i in bad:
+        a0, b0, _ = base[i]
+        scale = max(abs(a0), abs(b0), 1e-300)
+        r0 = abs(a0 - b0) / scale
+        var = 0.0
+        for rr in small + large:
+            tr = (rr.get('cmp') or [[]])[0]
+            if len(tr) != len(base):
+                continue
+            var = max(var, abs(tr[i][0] - a0) / scale,
+                      abs(tr[i][1] - b0) / scale)
+        if var >= 0.5 * r0:
+            continue        # (A)
+        sens = 0.0
+        for rr in large:
+            tr = (rr.get('cmp') or [[]])[0]
+            if len(tr) != len(base):
+                continue
+            sens = max(sens, abs(tr[i][0] - a0) / 1e-7,
+                       abs(tr[i][1] - b0) / 1e-7)
+        if abs(a0 - b0) <= 4e-15 * sens:
+            continue        # (B)
+        return False        # this asserted equality fails stably
+    return True
 
 
 def merge_results(parts):
@@ -529,16 +624,20 @@ def main(argv=None):
     for ln in lines:
         print(ln)
     errors = res['errors']
+    n_bonly = sum(1 for o in obs if o.status == 'bounded-pass')
     print('%s tier=%s obligations=%d discharged=%d known=%d violations=%d '
-          'undecided=%d bounded_checks=%d errors=%d wall=%.1fs'
+          'undecided=%d bounded_checks=%d errors=%d%s wall=%.1fs'
           % (prop, tier, n_obl, n_dis, len(known_hit),
              len(violations) + len(bfail), len(undec), len(bounded),
-             len(errors), time.time() - t0))
+             len(errors), (' bounded_only=%d' % n_bonly) if n_bonly else '', time.time() - t0))
     for o in undec:
         print('  UNDECIDED %s: %s' % (o.name, o.detail))
     for o in obs:
         if o.status == 'bounded':
             print('  NOT-PROVED %s: %s' % (o.name, o.detail))
+    for o in obs:
+        if o.status == 'bounded-pass':
+            print('  BOUNDED-ONLY %s: %s' % (o.name, o.detail))
     for e in errors:
         print('  ERROR ' + e.splitlines()[0])
         if a.v:
@@ -626,6 +725,10 @@ def build_evidence(prop, tier, seed, res, obs, files, bounded, known_hit,
                     | {'failures': len(b.get('failures', []))}
                     for b in bounded],
         'undecided': [o.to_json() for o in undec],
+        # contracts outside the modelled subset whose clauses were only run
+        # natively on samples (bounded, never counted as proved)
+        'bounded_only_contracts': [{'obligation': o.name, 'detail': o.detail}
+                                   for o in obs if o.status == 'bounded-pass'],
         'known_findings': [k['what'] for k, _ in known_hit],
         'extraction_drops': EXTRACTION_DROPS,
         'cross_check': res['cross'],
